@@ -193,8 +193,70 @@ class Opaque(object):
         self.kind = kind
         self.f = fields
 
+    # linear algebra on opaque matrices/vectors: kept as terms
+    def __add__(self, o):
+        if isinstance(o, (int, P)) and not isinstance(o, bool) and (o == 0 or (isinstance(o, P) and o.is_zero())):
+            return self
+        if not isinstance(o, Opaque):
+            return NotImplemented
+        return Opaque('sum', terms=_flat_terms(self) + _flat_terms(o))
+    __radd__ = __add__
+
+    def __sub__(self, o):
+        if not isinstance(o, Opaque):
+            return NotImplemented
+        return Opaque('sum', terms=_flat_terms(self) + [Opaque('scale', k=-1, of=t) for t in _flat_terms(o)])
+
+    def __neg__(self):
+        return Opaque('scale', k=-1, of=self)
+
+    def __mul__(self, k):
+        if isinstance(k, Opaque):
+            if k.kind == 'complex':
+                return Opaque('scale', k=k, of=self)
+            return Opaque('matmul', a=self, b=k)
+        if isinstance(k, (int, P, Fraction)):
+            return Opaque('scale', k=k, of=self)
+        return NotImplemented
+    __rmul__ = __mul__
+
+    def __truediv__(self, k):
+        if isinstance(k, (int, P, Fraction)):
+            return Opaque('scale', k=P.const(1) / k, of=self)
+        return NotImplemented
+
+    def key(self):
+        """structural key for equality of opaque terms"""
+        def k(v):
+            if isinstance(v, Opaque):
+                return v.key()
+            if isinstance(v, P):
+                return ('P', normal(v).text())
+            if isinstance(v, (list, tuple)):
+                return tuple(k(x) for x in v)
+            if isinstance(v, dict):
+                return tuple(sorted((kk, k(x)) for kk, x in v.items()))
+            if isinstance(v, Obj):
+                return ('obj', v.name)
+            try:
+                import numpy as np
+                if isinstance(v, np.ndarray):
+                    return ('arr', v.shape, tuple(k(x) for x in v.reshape(-1)))
+            except ImportError:
+                pass
+            return ('v', repr(v))
+        if self.kind == 'sum':
+            return ('sum', tuple(sorted(k(t) for t in self.f['terms'])))
+        return (self.kind, tuple(sorted((kk, k(v)) for kk, v in self.f.items())))
+
     def __repr__(self):
         return '<%s %s>' % (self.kind, ', '.join('%s=%r' % kv for kv in sorted(self.f.items(), key=lambda kv: kv[0])[:4]))
+
+
+def _flat_terms(o):
+    if o.kind == 'sum':
+        return list(o.f['terms'])
+    return [o]
 
 
 class Obj(object):
@@ -362,6 +424,9 @@ class Interp(object):
         self.solver_time = 0.0
         self.builtins = make_builtins(self)
         self.trace_calls = []
+        self.abstract_locals = {}       # (function, local name) -> atom: let-abstraction of an intermediate
+        self.local_defs = {}            # atom -> [(value, path conds, line)] recorded definitions (own obligation)
+        self.generic_concrete = set()   # names of loop variables whose concrete ranges are executed generically
 
     # -- modules ------------------------------------------------------------
     def module(self, name):
@@ -370,6 +435,15 @@ class Interp(object):
             if not m.loaded:
                 self._load(m)
             return m
+        if '.' in name:
+            parent = name.rsplit('.', 1)[0]
+            if parent not in self.modules:
+                self.module(parent)
+                m = self.modules.get(name)
+                if m is not None:
+                    if not m.loaded:
+                        self._load(m)
+                    return m
         rel = name.replace('.', '/')
         base = os.path.join(self.repo, rel)
         if os.path.isdir(base):
@@ -388,8 +462,24 @@ class Interp(object):
         m.loaded = True
         if m.kind == 'pyx':
             m.pyx = pyxfront.rewrite(m.path)
-            for fname in m.pyx.funcs:
-                m.g[fname] = ExternalFunc(m.name + '.' + fname)
+            for ext in m.pyx.externs:
+                m.g[ext] = ExternalFunc('extern.' + ext)
+            fr = Frame(m)
+            fr.l = m.g
+            saved = self.path
+            if self.path is None:
+                self.path = Path([])
+            try:
+                for st in m.pyx.tree.body:
+                    if isinstance(st, ast.FunctionDef):
+                        f = Func(st, m, m.name + '.' + st.name, m.pyx.ctypes.get(st.name, {}))
+                        f.defaults = [self.eval(d, fr) for d in st.args.defaults]
+                        f.kw_defaults = []
+                        m.g[st.name] = f
+                    else:
+                        self.exec_stmt(st, fr)
+            finally:
+                self.path = saved
             return
         if not os.path.exists(m.path):
             return
@@ -565,6 +655,12 @@ class Interp(object):
                 mod = self.import_module(base)
                 if a.name == '*':
                     continue
+                if (base + '.' + a.name) in self.shims:
+                    fr.l[a.asname or a.name] = self.shims[base + '.' + a.name]
+                    continue
+                if hasattr(mod, 'sym_getattr'):
+                    fr.l[a.asname or a.name] = mod.sym_getattr(self, a.name)
+                    continue
                 if isinstance(mod, ExternalModule):
                     v = ExternalFunc(base + '.' + a.name)
                     if (base + '.' + a.name) in self.shims:
@@ -720,7 +816,7 @@ class Interp(object):
         # C integer division for declared ints in .pyx (cdivision)
         if isinstance(s.op, ast.Div) and isinstance(t, ast.Name) and fr.ctypes.get(t.id) in ('int', 'long'):
             new = self.c_intdiv(cur, rhs, s)
-        elif self.generic and isinstance(t, ast.Name) and isinstance(cur, Poison):
+        elif self.generic and isinstance(t, ast.Name) and (isinstance(cur, Poison) or hasattr(cur, 'seq')):
             new = self.generic[-1].carried(self, t.id, s, rhs, fr)
         else:
             new = self.binop(s.op, cur, rhs, s, fr)
@@ -736,6 +832,11 @@ class Interp(object):
 
     def assign(self, t, v, fr):
         if isinstance(t, ast.Name):
+            if self.abstract_locals and fr.func is not None and isinstance(v, P):
+                alias = self.abstract_locals.get((fr.func.qualname.split('.')[-1], t.id)) or self.abstract_locals.get(('*', t.id))
+                if alias is not None:
+                    self.local_defs.setdefault(alias, []).append((v, list(self.path.conds), getattr(t, 'lineno', None)))
+                    v = P.atom(alias)
             if t.id in fr.globals_decl:
                 fr.module.g[t.id] = v
             else:
@@ -801,6 +902,10 @@ class Interp(object):
         if hasattr(it, 'factory') and hasattr(it, 'elem'):
             mode = self.loop_mode(fr, s)
             return mode.run_list(self, s, it, fr)
+        if isinstance(it, range) and isinstance(s.target, ast.Name) and s.target.id in self.generic_concrete \
+                and it.step == 1 and len(it) > 1:
+            mode = self.loop_mode(fr, s)
+            return mode.run_for(self, s, SymRange(it.start, it.stop), fr)
         vals = self.iterate(it, s)
         broke = False
         for v in vals:
@@ -1304,6 +1409,8 @@ class Interp(object):
         return a / b
 
     def sym_floordiv(self, a, b, node):
+        if isinstance(a, P) and is_int_valued(a) and isinstance(b, int) and b > 0:
+            return integer('floordiv(%s,%d)' % (normal(a).text(), b))
         raise CheckerError('line %d: symbolic floor division needs a contract' % node.lineno)
 
     def sym_mod(self, a, b, node):
@@ -1314,6 +1421,12 @@ class Interp(object):
 
     # -- calls --------------------------------------------------------------------------
     def ex_Call(self, e, fr):
+        if isinstance(e.func, ast.Name) and e.func.id == 'exec' and len(e.args) == 1:
+            src = self.eval(e.args[0], fr)
+            if not isinstance(src, str):
+                raise CheckerError('exec of a non-string')
+            self.exec_block(ast.parse(src).body, fr)
+            return None
         f = self.eval(e.func, fr)
         args = []
         for a in e.args:
